@@ -14,9 +14,9 @@ set_option maxHeartbeats 1000000 in
 /-- `loopX4` from `fillCounterX4` to the store: 64 bytes of counter-mode output -/
 theorem x4A_spec (s : State) (pc : PCtx s) (rk jb src : List Nat) (hrk : rk.length = 32) (hrkb : ∀ x ∈ rk, x < 2 ^ 32)
     (hjb : jb.length = 16) (hjbb : ∀ x ∈ jb, x < 2 ^ 8) (hsb : ∀ x ∈ src, x < 2 ^ 8)
-    (Mf : List Nat → List Region) (dbase dlen sp : Nat) (bf : Buf Mf dbase dlen) (hsrc : ∀ b, b.length = dlen → DataAt (Mf b) sp src)
+    (Mf : List Nat → List Region) (dbase dlen sp : Nat) (bf : Buf Mf dbase dlen)
     (hrd : ∀ b i, b.length = dlen → i < 32 → readMem (Mf b) (73014444032 + 4 * i) 4 = .ok (lanes 8 4 (rk.getD i 0)))
-    (b0 : List Nat) (hb0 : b0.length = dlen) (hm : s.mem = Mf b0) (c : Nat)
+    (b0 : List Nat) (hb0 : b0.length = dlen) (hm : s.mem = Mf b0) (c : Nat) (hsrc : SrcFrom (Mf b0) sp src (16 * c))
     (hctr : quadAt (vreg s 14) 0 = ctrW (Wblk jb 0) c) (h15 : greg s 15 = 73014444032)
     (h10 : greg s 10 = sp + 16 * c) (h13 : greg s 13 = dbase + 16 * c) (hso : 16 * c + 64 ≤ src.length) (hdo : 16 * c + 64 ≤ dlen)
     (hsp : sp + src.length < 2 ^ 63) (hdb : dbase + dlen < 2 ^ 63) :
@@ -42,7 +42,7 @@ theorem x4A_spec (s : State) (pc : PCtx s) (rk jb src : List Nat) (hrk : rk.leng
     exact encQ_ctr rk jb hrkb hjb hjbb _
   have hm2 : s2.mem = Mf b0 := by rw [k2.mem, k1.mem]; exact hm
   obtain ⟨s3, hr3, m3, r9⟩ := xs4_spec s2 (k2.lenG.trans (k1.lenG.trans pc.lenG)) (k2.lenV.trans (k1.lenV.trans pc.lenV)) Mf dbase dlen bf src sp
-    hsrc hsb b0 hb0 hm2 (16 * c) (16 * c) (by rw [k2.g 10 (by decide), k1.g 10 (by decide)]; exact h10)
+    hsb b0 hb0 hm2 (16 * c) (16 * c) hsrc (by rw [k2.g 10 (by decide), k1.g 10 (by decide)]; exact h10)
     (by rw [k2.g 13 (by decide), k1.g 13 (by decide)]; exact h13) hso hdo hsp hdb (ksReg rk jb c 1) hks
   have k3 := keepsM_of_exec _ xs4_writesM hr3
   refine ⟨s3, execList_append_ok hr1 (execList_append_ok hr2 hr3), m3, r9, ?_, ?_, ?_⟩
@@ -88,9 +88,9 @@ theorem x4_step (r : Routine) (k b : Nat) (hs : Slice r k (ladX4Code b))
     (hrk : rk.length = 32) (hrkb : ∀ x ∈ rk, x < 2 ^ 32) (hjb : jb.length = 16) (hjbb : ∀ x ∈ jb, x < 2 ^ 8) (hsb : ∀ x ∈ src, x < 2 ^ 8)
     (hsp : sp + src.length < 2 ^ 63) (hdb : dbase + dlen < 2 ^ 63) (hsl : src.length ≤ dlen)
     (toff h hf c y : Nat) (dc tc : List Nat) (s : State) (hhf : hf < 2 ^ 63)
-    (st : LadSt M2 dbase dlen tp sp toff (Wblk jb 0) h hf src.length 1 c y dc tc s) (hlen : 16 * c + 64 ≤ src.length) :
+    (st : LadSt M2 dbase dlen tp sp toff (Wblk jb 0) h hf src 1 c y dc tc s) (hlen : 16 * c + 64 ≤ src.length) :
     ∃ s' N, N ≤ 700 ∧ Reach r k s k s' N ∧
-      LadSt M2 dbase dlen tp sp toff (Wblk jb 0) h hf src.length 1 (c + 4)
+      LadSt M2 dbase dlen tp sp toff (Wblk jb 0) h hf src 1 (c + 4)
         (if hf = 0 then y else ghN4 h 1 y (xorN ((src.drop (16 * c)).take 64) (ksN rk jb c 4)))
         (spliceAt dc (16 * c) (xorN ((src.drop (16 * c)).take 64) (ksN rk jb c 4))) tc s' ∧
       KeepsM ladKeepG ladKeepV (List.range 8) s s' := by
@@ -113,7 +113,7 @@ theorem x4_step (r : Routine) (k b : Nat) (hs : Slice r k (ladX4Code b))
   have k0 : KeepsM (List.range 16) (List.range 32) (List.range 8) s s0 := keepsM_setFlags _ _ _ s _
   have pc0 : PCtx s0 := st.pc.of_keepsM k0 (by decide)
   obtain ⟨s1, hr1, m1, reg9, ctr1, g15, k1⟩ := x4A_spec s0 pc0 rk jb src hrk hrkb hjb hjbb hsb (fun d => M2 d tc) dbase dlen sp
-    (lm.m2.bufD tc st.htc) (fun d hd => lm.src d tc hd st.htc) (fun d i hd hi => lm.rk d tc i hd st.htc hi) dc st.hdc st.mem c
+    (lm.m2.bufD tc st.htc) (fun d i hd hi => lm.rk d tc i hd st.htc hi) dc st.hdc st.mem c (st.srcOK tc st.htc)
     (st.ctr 0 (by decide)) st.rkp st.g10 st.g13 hlen (by omega) hsp hdb
   have r1 : Reach r (k + 2) s0 (k + 2 + 565) s1 565 := by
     have := reach_seg sA x4A_nc hr1; rw [x4A_len] at this; exact this
@@ -169,7 +169,7 @@ theorem x4_step (r : Routine) (k b : Nat) (hs : Slice r k (ladX4Code b))
   have hm4 : s4.mem = M2 (spliceAt dc (16 * c) (xorN ((src.drop (16 * c)).take 64) (ksN rk jb c 4))) tc := by
     rw [k4.mem, m3]; exact m1
   refine ⟨st.pc.of_keepsM kA pRegs_lad, st.gh.of_keepsM kA ghRegs_lad, (kA.g 15 (by decide)).trans st.rkp, (kA.g 0 (by decide)).trans st.g0,
-    ?_, ?_, ?_, (kA.g 6 (by decide)).trans st.g6, ?_, ?_, ?_, hm4, ?_, st.htc⟩
+    ?_, ?_, ?_, (kA.g 6 (by decide)).trans st.g6, ?_, ?_, ?_, hm4, ?_, st.htc, ?_⟩
   · rw [g9]; omega
   · rw [g10]; omega
   · rw [g13]; omega
@@ -180,5 +180,8 @@ theorem x4_step (r : Routine) (k b : Nat) (hs : Slice r k (ladX4Code b))
   · rw [k4.v 21 (by decide)]; exact y3
   · rw [← y3]; exact lt3
   · rw [spliceAt_length _ _ _ (by rw [xorN_length, ksN_length, List.length_take, List.length_drop, st.hdc]; omega)]; exact st.hdc
+  · intro t ht
+    exact (lm.adv dc t (16 * c) 64 _ st.hdc ht (by rw [xorN_length, ksN_length, List.length_take, List.length_drop]; omega) (by omega)
+      (st.srcOK t ht)).mono _ (by omega)
 
 end SMGo.Proofs.ISAVal
